@@ -75,8 +75,10 @@ class TaskHandler:
     def flush(self):
         """Await completion of all pending tasks."""
         self._open = False
-        if len(self._pending) > 0:
-            for key in dict(self._pending).keys():
-                get = self._pending.get(key)
-                if get is not None:
-                    self._pending[key].result(10)
+        # tasks remove themselves from pending when they complete, so work on a copy
+        for future in list(self._pending.values()):
+            try:
+                future.result(10)
+            except BaseException:
+                # the task callback has logged the failure, a failed (or slow) task must not stop us awaiting the rest
+                pass
